@@ -19,7 +19,7 @@ open Usual.C06
 inductive NT where
   | leaf (e : Entry)
   | node (id : Id) (b : Nat) (l r : NT)
-deriving Repr
+deriving Repr, DecidableEq
 
 def NT.erase : NT → T
   | .leaf e => .leaf e
@@ -66,7 +66,7 @@ def NT.delete : NT → Key → Option (Entry × Option (Id × NT))
 structure CB where
   hdr : Id
   root : Option NT := none
-deriving Repr
+deriving Repr, DecidableEq
 
 def CB.eroot (t : CB) : Option T := t.root.map NT.erase
 
@@ -117,7 +117,7 @@ structure SP where
   tree : CB
   count : Int := 0
   refs : List (Id × Nat) := []       -- block of each live `struct PStr` ↦ refcnt
-deriving Repr
+deriving Repr, DecidableEq
 
 def SP.owned (p : SP) : List Id := p.hdr :: (p.tree.owned ++ p.refs.map (·.1))
 
@@ -174,13 +174,13 @@ structure MEl where
   kblk : Id               -- key buffer
   vblk : Option Id        -- value buffer (`none` = NULL value)
   val : Val
-deriving Repr
+deriving Repr, DecidableEq
 
 structure MD where
   hdr : Id
   tree : CB
   els : List MEl := []
-deriving Repr
+deriving Repr, DecidableEq
 
 def MEl.blocks (m : MEl) : List Id :=
   m.kblk :: (match m.vblk with | none => [m.el] | some v => [v, m.el])
